@@ -65,26 +65,25 @@ structure POpts where
   vopt : VCls → Option VOpts
   lopt : LCls → Option LOpts
 
-def vParent : VCls → Option VCls
-  | .V => none | _ => some .V
+/-- the method resolution order of a vertex class (`type(vertex).__mro__` up to Vertex) -/
+def vMro : VCls → List VCls
+  | .V => [.V] | .SV => [.SV, .V] | .FV => [.FV, .V] | .UNI => [.UNI, .V]
+  | .MX => [.MX, .V] | .MV => [.MV, .SV, .MX, .V]
 
-def lParent : LCls → Option LCls
-  | .DD => some .D | .UU => some .U | _ => none
+/-- the method resolution order of a link class, up to the edge classes -/
+def lMro : LCls → List LCls
+  | .DD => [.DD, .D] | .UU => [.UU, .U] | .DU => [.DU, .D, .U] | c => [c]
 
 /-- `_resolve_options(type(vertex), options)` : nearest configured class, else ValueError -/
 def resolveV (o : POpts) (c : VCls) : Except Err VOpts :=
-  match o.vopt c with
+  match (vMro c).findSome? o.vopt with
   | some x => .ok x
-  | none => match vParent c with
-    | some p => (match o.vopt p with | some x => .ok x | none => .error .value)
-    | none => .error .value
+  | none => .error .value
 
 def resolveL (o : POpts) (c : LCls) : Except Err LOpts :=
-  match o.lopt c with
+  match (lMro c).findSome? o.lopt with
   | some x => .ok x
-  | none => match lParent c with
-    | some p => (match o.lopt p with | some x => .ok x | none => .error .value)
-    | none => .error .value
+  | none => .error .value
 
 /-- `_vertex_title` : `hex(id(v))` (token `id<v>`) or the value of attribute a0 (token `T<val>`);
     formatting from a missing attribute raises KeyError -/
@@ -96,7 +95,7 @@ def title (w : World) (vo : VOpts) (v : VId) : Except Err String :=
   else .ok s!"id{v}"
 
 def clsName : VCls → String
-  | .V => "Vertex" | .SV => "SV" | .FV => "FV" | .UNI => "Universe"
+  | .V => "Vertex" | .SV => "SV" | .FV => "FV" | .UNI => "Universe" | .MX => "MX" | .MV => "MV"
 
 /-- the header line of `_one_vert_to_puml` -/
 def declOf (w : World) (o : POpts) (v : VId) : Except Err String :=
@@ -187,7 +186,7 @@ def edgesOf (w : World) (ms : List VId) (re : Option (LId → String)) (i : Nat)
       match other.bind (indexOf? ms) with
       | none => edgesOf w ms re i v ls es           -- not a member
       | some j =>
-        let dir := (w.lcls l).kind == .directed
+        let dir := (w.lcls l).subDirected
         edgesOf w ms re i v ls (addEdge es i j dir (re.map (· l)))
     | _ => .error .index
 
